@@ -35,6 +35,7 @@ type insertPlan struct {
 	hasCB    bool
 	external []*TNode // external data table columns
 	extRows  int
+	uniform  bool // incompressible values
 }
 
 type insertQuery struct {
@@ -63,7 +64,7 @@ func runInsertPlan(r *Rng, sc *simClient, q insertQuery, p insertPlan, streamSch
 	var cur []*CNode
 	for _, t := range p.types {
 		col, _ := newColumn(t)
-		cn := genCol(r, t, p.initial, genOpts{})
+		cn := genCol(r, t, p.initial, genOpts{uniform: p.uniform})
 		_ = fillColumn(col, cn)
 		cols = append(cols, col)
 		cur = append(cur, cn)
@@ -100,7 +101,7 @@ func runInsertPlan(r *Rng, sc *simClient, q insertQuery, p insertPlan, streamSch
 				k = cur[0].NRows() // same number of rows: the old memory is overwritten in place
 			}
 			for i, t := range p.types {
-				add := genCol(r, t, k, genOpts{})
+				add := genCol(r, t, k, genOpts{uniform: p.uniform})
 				if rd.Mut == "poke" && pokeColumn(cols[i], add) {
 					// the rows were rewritten through the column's exported storage, no Reset, no Append
 					run.poked++
@@ -641,7 +642,7 @@ func c02LargeBlocks(c *Ctx, r *Rng, prop string) {
 			break
 		}
 		for _, withCB := range []bool{false, true} {
-			p := insertPlan{types: []*TNode{t}, names: []string{"c0"}, initial: 140000, hasCB: withCB}
+			p := insertPlan{types: []*TNode{t}, names: []string{"c0"}, initial: 140000, hasCB: withCB, uniform: true}
 			if withCB {
 				// one more large round, then end of input with the rows still present
 				p.rounds = []inputRound{{Mut: "reset-append", Rows: 135000, Ret: "nil"}, {Mut: "none", Rows: 0, Ret: "eof"}}
